@@ -235,7 +235,10 @@ def r09_5(ctx):
             holder["running"] = True
             return Outcomes(OK(None))
 
+        import urllib.parse as _up
+
         models = event_models(holder) + [("urllib.parse.urlparse", lambda px_, t, a, k, fr: Obj(TypeRef("ParseResult"), {"scheme": scheme}, tag="url")),
+                                         ("urllib.parse.urlsplit", lambda px_, t, a, k, fr: _up.SplitResult(scheme, "host:1", "", "", "")),
                                          # the waiter ends with the RSTACK, is released with the connection error, or - under asyncio.timeout - is
                                          # interrupted by the time limit (inside a bounded asyncio.wait the limit leaves the task pending instead)
                                          ("self._gw.wait_for_startup_reset", lambda px_, t, a, k, fr: Outcomes(OK(None), RAISE("ConnectionResetError")) if getattr(
